@@ -138,7 +138,7 @@ func (f *Field[T]) add(a, b *Element[T], nextOverflow uint) *Element[T] {
 			limbs[i] = f.api.Add(limbs[i], b.Limbs[i])
 		}
 	}
-	return f.newInternalElement(limbs, nextOverflow)
+	return f.newComputedElement(limbs, nextOverflow)
 }
 
 func (f *Field[T]) Sum(inputs ...*Element[T]) *Element[T] {
@@ -169,7 +169,7 @@ func (f *Field[T]) Sum(inputs ...*Element[T]) *Element[T] {
 			limbs[j] = f.api.Add(limbs[j], inputs[i].Limbs[j])
 		}
 	}
-	return f.newInternalElement(limbs, overflow+uint(addOverflow))
+	return f.newComputedElement(limbs, overflow+uint(addOverflow))
 }
 
 // Sub subtracts b from a and returns it. Reduces locally if wouldn't fit into
@@ -210,7 +210,7 @@ func (f *Field[T]) sub(a, b *Element[T], nextOverflow uint) *Element[T] {
 			limbs[i] = f.api.Sub(limbs[i], b.Limbs[i])
 		}
 	}
-	return f.newInternalElement(limbs, nextOverflow)
+	return f.newComputedElement(limbs, nextOverflow)
 }
 
 func (f *Field[T]) Neg(a *Element[T]) *Element[T] {
